@@ -37,6 +37,7 @@ type GRes struct {
 	Reason uint8  `json:"reason,omitempty"`
 	BadWid bool   `json:"badwid,omitempty"`
 	Flip   bool   `json:"flip,omitempty"` // extension/type mismatch
+	Fork   int    `json:"fork,omitempty"` // non-zero: the log was re-included on another fork (same tx hash and index, other log block hash)
 }
 
 type GProp struct {
@@ -48,6 +49,7 @@ type GProp struct {
 	ExtBlk uint64 `json:"extblk,omitempty"`
 	BadWid bool   `json:"badwid,omitempty"`
 	Flip   bool   `json:"flip,omitempty"`
+	Fork   int    `json:"fork,omitempty"`
 }
 
 type GBlock struct {
@@ -95,14 +97,18 @@ func blockHash(tag int) [32]byte {
 	return Hash32("blockhash", tag)
 }
 
-func trigOf(kind, logn int, blk uint64, hash int, extblk uint64, flip bool) common.Trigger {
+func trigOf(kind, logn int, blk uint64, hash int, extblk uint64, flip bool, fork ...int) common.Trigger {
 	hasExt := kind == 1
 	if flip {
 		hasExt = !hasExt
 	}
 	if hasExt {
+		lbh := Hash32("logblock", logn)
+		if len(fork) > 0 && fork[0] != 0 {
+			lbh = Hash32("logblock-fork", logn*16+fork[0])
+		}
 		return common.NewLogTrigger(common.BlockNumber(blk), blockHash(hash), &common.LogTriggerExtension{
-			TxHash: Hash32("tx", logn), Index: uint32(logn % 7), BlockHash: Hash32("logblock", logn), BlockNumber: common.BlockNumber(extblk)})
+			TxHash: Hash32("tx", logn), Index: uint32(logn % 7), BlockHash: lbh, BlockNumber: common.BlockNumber(extblk)})
 	}
 	return common.NewTrigger(common.BlockNumber(blk), blockHash(hash))
 }
@@ -134,7 +140,7 @@ func pdBytes(pd string) ([]byte, error) {
 func (g GRes) real() common.CheckResult {
 	r := common.CheckResult{
 		PipelineExecutionState: g.State, Retryable: g.Retry, Eligible: !g.Inelig, IneligibilityReason: g.Reason,
-		UpkeepID: UpkeepID(uint8(g.Kind), g.Upk), Trigger: trigOf(g.Kind, g.Log, g.Blk, g.Hash, g.ExtBlk, g.Flip),
+		UpkeepID: UpkeepID(uint8(g.Kind), g.Upk), Trigger: trigOf(g.Kind, g.Log, g.Blk, g.Hash, g.ExtBlk, g.Flip, g.Fork),
 		GasAllocated: g.Gas, FastGasWei: bigOf(g.Fgw), LinkNative: bigOf(g.Ln),
 	}
 	if g.PD != "-" {
@@ -158,7 +164,7 @@ func (g GRes) real() common.CheckResult {
 }
 
 func (g GProp) real() common.CoordinatedBlockProposal {
-	p := common.CoordinatedBlockProposal{UpkeepID: UpkeepID(uint8(g.Kind), g.Upk), Trigger: trigOf(g.Kind, g.Log, g.Blk, g.Hash, g.ExtBlk, g.Flip)}
+	p := common.CoordinatedBlockProposal{UpkeepID: UpkeepID(uint8(g.Kind), g.Upk), Trigger: trigOf(g.Kind, g.Log, g.Blk, g.Hash, g.ExtBlk, g.Flip, g.Fork)}
 	p.WorkID = WG(p.UpkeepID, p.Trigger)
 	if g.BadWid {
 		p.WorkID = "00" + p.WorkID[2:]
